@@ -85,7 +85,7 @@ func gen(m int) [][]string {
 	out := [][]string{}
 	var rec func(cur []string)
 	rec = func(cur []string) {
-		out = append(out, append([]string(nil), cur...))
+		out = append(out, append([]string{}, cur...))
 		if len(cur) == m {
 			return
 		}
@@ -1376,6 +1376,10 @@ func TestC15(t *testing.T) {
 			res, err := runPair(tp, sp)
 			if err != nil {
 				col.Fail(err.Error())
+				return
+			}
+			if res.skipped {
+				t.Logf("replay %s: the requested local reference state cannot be constructed (no unskipped remote entry for the reference); nothing executed", sp)
 				return
 			}
 			col.Inc("evaluations")
